@@ -122,6 +122,15 @@ func TestC07FullNode(t *testing.T) {
 	world.Run(t, "C07", "fullnode-inclusion", world.Scale(120, 800), func(t *rapid.T) c02gen.ScenarioB {
 		sc := c02gen.GenB(t, world.Scale(8, 16), true)
 		sc.InitialHeight = 1 // C07's quantifier does not range over initial heights
+		if rapid.IntRange(0, 2).Draw(t, "readfaults") == 0 {
+			maxDA := uint64(1)
+			for _, pl := range sc.Placements {
+				if pl.DAHeight > maxDA {
+					maxDA = pl.DAHeight
+				}
+			}
+			sc.FetchFaults = c02gen.GenFetchFaults(t, maxDA)
+		}
 		return sc
 	}, func(sc c02gen.ScenarioB) world.Verdict {
 		v := c02gen.RunB(sc, dir, "C07", fullSafety, func(r *c02gen.BRun) *world.Problem {
